@@ -14,7 +14,8 @@ IO_OBJS := $(B)/asan/sim/harness.o $(B)/asan/sim/simdisk.o $(B)/asan/sim/fitscod
   $(B)/asan/harness/psv_io.o \
   $(addprefix $(B)/asan/repo/core/,$(addsuffix .o,$(CORE_SRC))) \
   $(addprefix $(B)/asan/repo/fitter/,$(addsuffix .o,$(FITTER_SRC))) \
-  $(B)/asan/repo/cinter/splinetable.o
+  $(B)/asan/repo/cinter/splinetable.o \
+  $(B)/asan/repo/tools/eval.o $(B)/asan/repo/tools/inspect.o
 
 # where the shipped reference files and the golden digests live
 $(B)/asan/harness/psv_io.o: CXXFLAGS += -DPSV_REPO_DIR='"$(abspath $(REPO))"' -DPSV_VERIF_DIR='"$(CURDIR)"'  -Wno-volatile-register-var
